@@ -5,8 +5,26 @@ sys.path.insert(0, os.path.dirname(os.path.dirname(os.path.abspath(__file__))))
 from sa.rules import all_rule_ids, PROPERTY_INFO, PROPERTIES
 
 TECH = {
-    'C01': 'AST/CFG exception-coverage + affine induction analysis + layout agreement over the T interpreter',
-    'C02': 'op-code exhaustiveness (writer subset-of interpreter) + dunder/operator table agreement + def-use',
+    'C01': 'CFG exception-coverage + must-pass (fail-stop) + affine induction analysis of the part index + op-tuple layout agreement (writer vs readers) over the T interpreter',
+    'C02': 'op-code exhaustiveness (writer subset-of interpreter) + dunder/operator table agreement + def-use of argument evaluation',
+    'C03': 'dominator-based sentinel discipline, per-path evaluate-once, iteration-order and chaining def-use rules over the auto-mode handlers',
+    'C04': 'handler-outcome analysis (re-raise discipline), guardedness of user-code re-entry, class-hierarchy and constructor/args agreement (copyability)',
+    'C05': 'must-pass bookkeeping on exception edges, reader/writer scope-key agreement, record-layout agreement of the trace reader',
+    'C06': 'allocation-site points-to + effect inventory with interprocedural mutation summaries; closed shared-state inventory; memo-key completeness',
+    'C07': 'frame-write ownership (reaching definitions of scope variables), flow of the caller scope into copying sinks, who-may-call chain_child',
+    'C08': 'must-precede ordering of mode stores, recycler reset rule, bracket (save/set/restore on every path) rule, type-dispatch exhaustiveness',
+    'C09': 'raise-class discipline over the hierarchy, effect inventory restricted to matching, structural rules of the dict/sequence/tuple branches',
+    'C10': 'raise-class discipline, sibling agreement of comparison-code tables, return-expression and short-circuit rules, option usage',
+    'C11': 'write-last ordering on the CFG, affine agreement of the break-point indices, call-graph confinement of the mutation API',
+    'C12': 'exception coverage per deletion primitive against miss-class tables + ignore_missing consultation on every handler',
+    'C13': 'must-pass memo invalidation after handler stores, memo-key completeness, exact-before-fuzzy ordering, per-instance state, derived known finding',
+    'C14': 'worklist/visited-set discipline (dominance + recorded-before-expanded), swallow rules, wildcard op-code agreement across five sites',
+    'C15': 'reaching-definition provenance of the accumulator, per-evaluation init(), lazy/eager tables, affine count of Flatten levels',
+    'C16': 'per-evaluation allocation of the accumulator tree, effect confinement of aggregators, sentinel dominance in the group dispatcher',
+    'C17': 'effect purity and copy-on-write field forwarding of builders, stage-order writer/reader agreement, lazy-combinator tables (boltons parsed)',
+    'C18': 'formatter exhaustiveness, inverse root tables, immutability via points-to, affine threshold extraction of the index guard',
+    'C19': 'sink confinement over the call graph + control dependence, spec-text taint to an enumerated sink set, def-use from glom() result to print',
+    'C20': 'call-graph closure of the evaluator through all indirections + closed shared-state inventory + memo monotonicity + per-call allocation rules',
 }
 NA = {}
 
